@@ -15,5 +15,7 @@ fn main() -> Result<(), Box<dyn std::error::Error>> {
         println!("cargo:rustc-env=CARGO_PKG_VERSION={}", val);
     }
     println!("cargo:rerun-if-env-changed=DELTIO_RELEASE_VERSION");
+    // Verification hooks are guarded by `--cfg deltio_verif`; declare the name to rustc.
+    println!("cargo:rustc-check-cfg=cfg(deltio_verif)");
     Ok(())
 }
